@@ -42,4 +42,61 @@ def RefinesOut {α : Type} (S : RStore F σ) (s : σ) (res : Outcome (α × σ))
   | .defer op vl vr => ∃ s0, Eff S s s0 rest (S.vals s) ∧ DeferProtocol S s0 res next op (vl.typeOf, la) (vr.typeOf, ra)
   | .err e => res = .err e
 
+/-- a lookup helper (`get_access_addr`, `access_with_integer`, `access_with_symbol`, `index_*`) against Abs/Ops
+`Acc`: `Some(addr)` with `addr` denoting the value found (possibly freshly added), `None`, the
+`UnsupportedOpTypes` error, or another error; registers, input values and host trace are as before -/
+def AccOut (S : RStore F σ) (s : σ) (res : Outcome (Option Nat × σ)) (a : Acc F) : Prop :=
+  match a with
+  | .some v => ∃ x s', res = .ok (some x, s') ∧ Decodes (S.view s') x v ∧ Eff S s s' (S.regs s) (S.vals s)
+  | .none => ∃ s', res = .ok (none, s') ∧ Eff S s s' (S.regs s) (S.vals s)
+  | .unsupported => res = .err .unsupported
+  | .err e => res = .err e
+
+/-- the host's `resolve` is asked exactly once with `sym` from the state `s0`; `true` ↦ the handler returns in the
+host's state without touching it; `false` ↦ unit is pushed on the host's registers; a host error is propagated -/
+def ResolveProtocol {α : Type} (S : RStore F σ) (s0 : σ) (res : Outcome (α × σ)) (next : α) (sym : Nat) : Prop :=
+  match S.resolve sym s0 with
+  | .ok (true, s1) => res = .ok (next, s1)
+  | .ok (false, s1) => Pushed S s1 res next (S.regs s1) .unit
+  | .err e => res = .err e
+  | .panic p => res = .panic p
+  | .fuelOut => res = .fuelOut
+
+/-- "check context, default to unit": a symbol key is offered to the host (`ResolveProtocol`); for any other key
+unit is pushed and the host is not asked. Stacks and data before the host call are those of `s` (`Eff`). -/
+def ResolveContext {α : Type} (S : RStore F σ) (s : σ) (res : Outcome (α × σ)) (next : α) (key : Val F) : Prop :=
+  ∃ s0, Eff S s s0 (S.regs s) (S.vals s) ∧
+    match key with
+    | .sym sy => ResolveProtocol S s0 res next sy
+    | _ => Pushed S s0 res next (S.regs s0) .unit
+
+/-- the `External` arm of `apply_internal`: the host's `apply` is asked exactly once with the external's value and
+the address of the argument -/
+def ApplyProtocol {α : Type} (S : RStore F σ) (s0 : σ) (res : Outcome (α × σ)) (next : α) (ext arg : Nat) : Prop :=
+  match S.apply ext arg s0 with
+  | .ok (true, s1) => res = .ok (next, s1)
+  | .ok (false, s1) => Pushed S s1 res next (S.regs s1) .unit
+  | .err e => res = .err e
+  | .panic p => res = .panic p
+  | .fuelOut => res = .fuelOut
+
+variable (fo : FloatOps F)
+
+/-- values whose look-up is covered by the theorems: no slice at the top (Abs/Ops does not model look-ups in
+slices); sequences — the flattened items of a concatenation included — no longer than `i32::MAX`
+(`size_to_number`, the running index of the concatenation work-list) -/
+def AccessDomain : Val F → Prop
+  | .slice _ _ => False
+  | .concat l r => (flatItems l ++ flatItems r).length ≤ 2147483647
+  | .list vs => vs.length ≤ 2147483647
+  | .chars cs => cs.length ≤ 2147483647
+  | .bytes bs => bs.length ≤ 2147483647
+  | .symList ps => ps.length ≤ 2147483647
+  | _ => True
+
+/-- the index is comparable with the length of the range (fails only for a NaN length or index) -/
+def RangeOrdered (idx : Number F) (v : Val F) : Prop :=
+  ∀ s e len, v = .range (.num s) (.num e) → Abs.rangeLen fo s e = some len →
+    (Number.partialCmp fo idx len).isSome
+
 end Garnish.Model.Runtime
